@@ -125,7 +125,7 @@ class B:
     def pro_op(self):
         name = self.draw(st.sampled_from(sorted(self.lists)))
         t, n = self.lists[name]
-        op = self.draw(st.sampled_from(["append", "remove_present", "drain_refill", "loop_append", "copy_assign", "skewed_copy", "skewed_copy", "read", "read", "self_assign", "reassign", "alias", "helper_read", "helper_mutate", "empty_range", "swap_lists", "swap_lists"]))
+        op = self.draw(st.sampled_from(["append", "remove_present", "drain_refill", "loop_append", "copy_assign", "skewed_copy", "skewed_copy", "read", "read", "self_assign", "reassign", "alias", "helper_read", "helper_mutate", "empty_range", "swap_lists", "swap_lists", "cond_assign", "cond_assign"]))
         d = self.pro
         if op == "append":
             d.append(f"{name}.append({self.operand(t, d, (name, n))})"); self.lists[name][1] += 1
@@ -198,6 +198,21 @@ class B:
                     self.big.update(grp)
                 for g in grp:
                     d.append(f"mon.write(len({g}))")
+                self.reassigned = True
+                t, n = self.lists[name]
+        elif op == "cond_assign":
+            # whole-list assignment from a conditional expression that selects one of two declared lists (the outcome is known when generating)
+            others = sorted(o for o, (ot, on) in self.lists.items() if o != name and ot == t and on >= 1)
+            if len(others) >= 1:
+                o1 = self.draw(st.sampled_from(others))
+                o2 = self.draw(st.sampled_from(others + [name]))
+                k = self.draw(st.integers(0, 4))
+                taken = o1 if self.lists[o1][1] >= k else o2
+                d += [f"{name} = {o1} if len({o1}) >= {k} else {o2}", f"mon.write(len({name}))"]
+                if taken != name:
+                    self.lists[name][1] = self.lists[taken][1]
+                    if taken in self.big:
+                        self.big.add(name)
                 self.reassigned = True
                 t, n = self.lists[name]
         elif op == "self_assign":
